@@ -29,7 +29,7 @@ import (
 var c01wsNames = []string{"main.journal", "b.journal", "c.journal"}
 
 type C01WSOp struct {
-	Op      string `json:"op"` // open | change | close | save (the client writes the buffer to the file, then didSave)
+	Op      string `json:"op"` // open | change | close | save (the client writes the buffer to the file, then didSave) | delete (the file of an open document is removed from the disk)
 	Doc     int    `json:"doc"`
 	Version int    `json:"version"`           // text version of the document after the op (open/change)
 	IncC    bool   `json:"inc_c,omitempty"`   // main.journal only: whether it includes c.journal in this version
@@ -64,6 +64,7 @@ func c01wsText(d, v int, incC bool) string {
 
 type c01wsState struct {
 	disk [3]string
+	gone [3]bool // no such file on disk
 	open [3]bool
 	text [3]string
 }
@@ -73,6 +74,9 @@ func c01wsStart(dir string, root bool, st *c01wsState) (*lspx.Harness, []string,
 	for d := 0; d < 3; d++ {
 		p := filepath.Join(dir, c01wsNames[d])
 		uris[d] = "file://" + p
+		if st.gone[d] {
+			continue
+		}
 		if err := os.WriteFile(p, []byte(st.disk[d]), 0o644); err != nil {
 			return nil, nil, err
 		}
@@ -164,6 +168,9 @@ func c01wsCheck(c *C01WSCase) (ds []ev.Discrepancy, classes []string) {
 				cls["close-without-saving"] = true
 			}
 			st.open[d] = false
+			if st.gone[d] {
+				cls["close-of-document-without-file"] = true
+			}
 			_ = h.Close(uris[d])
 		case "save":
 			if !st.open[d] {
@@ -174,8 +181,18 @@ func c01wsCheck(c *C01WSCase) (ds []ev.Discrepancy, classes []string) {
 				cls["save-changes-file-on-disk"] = true
 			}
 			st.disk[d] = st.text[d]
+			st.gone[d] = false
 			_ = os.WriteFile(filepath.Join(dir, c01wsNames[d]), []byte(st.disk[d]), 0o644)
 			_ = h.Save(uris[d])
+		case "delete":
+			// no notification reaches the server: it learns of it when it next reads the file
+			if !st.open[d] || st.gone[d] {
+				gate.release()
+				continue
+			}
+			st.gone[d], st.disk[d] = true, ""
+			_ = os.Remove(filepath.Join(dir, c01wsNames[d]))
+			cls["file-of-open-document-deleted"] = true
 		}
 		if op.Probe == "" || !st.open[op.From] {
 			gate.release()
@@ -198,8 +215,8 @@ func c01wsCheck(c *C01WSCase) (ds []ev.Discrepancy, classes []string) {
 		_ = os.MkdirAll(dir, 0o755)
 		ref := &c01wsState{}
 		for k := 0; k < 3; k++ {
-			ref.disk[k] = st.disk[k]
-			if st.open[k] {
+			ref.disk[k], ref.gone[k] = st.disk[k], st.gone[k]
+			if st.open[k] && !st.gone[k] {
 				ref.disk[k] = st.text[k]
 			}
 		}
@@ -260,10 +277,12 @@ func genC01WS(t *rapid.T) *C01WSCase {
 			open[d] = false
 		case rapid.IntRange(0, 4).Draw(t, "save") == 0:
 			op.Op = "save"
+		case d != 0 && rapid.IntRange(0, 5).Draw(t, "delete") == 0:
+			op.Op = "delete"
 		default:
 			op.Op, op.Version = "change", s+1
 		}
-		if d == 0 && op.Op != "close" && op.Op != "save" {
+		if d == 0 && op.Op != "close" && op.Op != "save" && op.Op != "delete" {
 			if rapid.IntRange(0, 2).Draw(t, "toggle") == 0 {
 				incC = !incC
 			}
